@@ -17,6 +17,7 @@ import (
 	"github.com/sassoftware/relic/v8/token"
 	"github.com/sassoftware/relic/v8/token/tokencache"
 	"io"
+	"math/big"
 	"os"
 	"path/filepath"
 	"sort"
@@ -76,6 +77,15 @@ func TestMain(m *testing.M) {
 	for _, k := range poolKeys {
 		leafs[k] = inter.Issue(keys.Key(k).Public(), keys.LeafOpts{CN: "c07 leaf " + k})
 		selfs[k] = keys.SelfSigned("c07 self-signed "+k, keys.Key(k), nil)
+		// the same curve and the same X coordinate, the other Y: private scalar n-d
+		if ek, ok := keys.Key(k).(*ecdsa.PrivateKey); ok {
+			n := ek.Curve.Params().N
+			neg := &ecdsa.PrivateKey{D: new(big.Int).Sub(n, ek.D)}
+			neg.Curve, neg.X = ek.Curve, new(big.Int).Set(ek.X)
+			neg.Y = new(big.Int).Sub(ek.Curve.Params().P, ek.Y)
+			leafs[k+"-neg"] = inter.Issue(neg.Public(), keys.LeafOpts{CN: "c07 leaf " + k + " negated"})
+			selfs[k+"-neg"] = keys.SelfSigned("c07 self-signed "+k+" negated", neg, nil)
+		}
 		if keys.Kind(k) == "rsa" {
 			pgps[k] = keys.PGPEntity(k, "c07 "+k, k+"@c07.example")
 			// the same certificate with a signing subkey of other key material (a key the
@@ -134,9 +144,15 @@ func TestC07_KeyCertificate(t *testing.T) {
 			cd.Key = rapid.SampledFrom([]string{"rsa2048a", "rsa2048b", "rsa3072"}).Draw(t, "pgpkey")
 		}
 		// which key is the certificate made for?
-		switch rapid.IntRange(0, 3).Draw(t, "certfor") {
+		certFor := rapid.IntRange(0, 4).Draw(t, "certfor")
+		if certFor == 4 && leafs[cd.Key+"-neg"] == nil {
+			certFor = 3
+		}
+		switch certFor {
 		case 0, 1:
 			cd.CertKey = cd.Key
+		case 4:
+			cd.CertKey = cd.Key + "-neg" // same curve, same X, opposite Y
 		default:
 			cd.CertKey = rapid.SampledFrom(poolKeys).Draw(t, "otherkey")
 		}
@@ -297,6 +313,9 @@ func TestC07_KeyCertificate(t *testing.T) {
 			kind = "cert-for-" + keys.Kind(cd.CertKey) + "-key-" + keys.Kind(cd.Key)
 			if cd.CertKey[:4] == cd.Key[:4] {
 				kind += "-same-params"
+			}
+			if strings.HasSuffix(cd.CertKey, "-neg") {
+				kind += "-same-x"
 			}
 		case !isPGP && !firstIsKeys:
 			kind = "order-" + cd.Order
